@@ -245,6 +245,7 @@ PROPS = {
             {"run": "^TestC07Schedules$", "shards": 16, "quick_shards": 4, "timeout_quick": 600, "timeout_thorough": 3000},
             {"run": "^TestC07Enumerate$", "shards": 16, "quick_shards": 4, "timeout_quick": 600, "timeout_thorough": 3000},
             {"run": "^TestC07Race$", "shards": 4, "race": True, "timeout_quick": 600, "timeout_thorough": 3000},
+            {"run": "^TestC07Steady$", "shards": 4, "quick_shards": 2, "timeout_quick": 600, "timeout_thorough": 3000},
         ],
     },
     "C19": {
